@@ -18,7 +18,7 @@ A6 lifetime              array code never calls free / malloc itself (lifetime o
 NOT decided: history-level lifetime ("released exactly once") beyond C05's reference accounting.
 """
 from .. import nw, typestate
-from ..facts import Prover, edge_atoms, _k
+from ..facts import Prover, edge_atoms, _k, strip_bitcasts
 from ..ir import const_int, resolve_addr, mem_access, is_arg
 from .c17 import abort_only
 from .c09 import check_at
@@ -321,6 +321,11 @@ def check_release(m, f, rule):
             miss = [t for t, ok in (('descriptor != NULL', ra_ok), ('buffer is external (buf != descriptor + 1)', ext_ok), ('cstl_shared_ptr_unique()', un_ok)) if not ok]
             if miss:
                 bad.append('a non-NULL buffer is handed back without %s' % ' / '.join(miss))
+            # what is handed back is the supplied buffer itself: the descriptor's buf field, not a pointer into it
+            core = f.get(strip_bitcasts(f, val)) if isinstance(val, str) else None
+            if core is None or core.op != 'load' or resolve_addr(f, core.o[0]).fsteps[-1:] != (('cstl_raw_array', 'buf'),):
+                bad.append('the pointer handed back at %s is not the descriptor\'s buffer pointer itself (%s): the caller cannot free or reuse '
+                           'the buffer it supplied' % (s.loc(), nw.describe(f, val) if isinstance(val, str) else val))
             # the object must be reset in that region
             resets = [c for c in f.all_insts() if c.op == 'call' and c.callee in ('cstl_array_reset', 'cstl_shared_ptr_reset') and resolve_addr(f, c.o[0]).root == '$0'
                       and (f.dominates_block(c.block, lb) if lb is not None else (vi is not None and f.dominates(vi, c)))]
